@@ -36,9 +36,9 @@ ASSUMPTIONS = [
     "value (None / [])",
 ]
 FLOORS = {"quick": {"handler_calls_checked": 30000, "error_maps": 6000},
-          "thorough": {"handler_calls_checked": 500000,
-                       "error_maps": 100000}}
-N_MODELS = {"quick": 2400, "thorough": 12000}
+          "thorough": {"handler_calls_checked": 2000000,
+                       "error_maps": 1500000}}
+N_MODELS = {"quick": 2400, "thorough": 60000}
 TEXTS = {"quick": 8, "thorough": 24}
 
 
